@@ -583,7 +583,53 @@ def rule_json_fields(ctx: Ctx) -> None:
                 ctx.ok("json.fields", m, r, what=f"from_json reads '{key}' for every class that has it")
 
 
+def rule_json_ctor(ctx: Ctx) -> None:
+    """json.ctor: from_json creates each operation with `<class>()` and then sets its registers through the property setters, so every
+    class the reader's name table can return must be constructible without arguments (all parameters of the __init__ it inherits have
+    defaults); otherwise loading a circuit that contains such an operation raises TypeError."""
+    repo = ctx.repo
+    DAGF = "graphiq/circuit/circuit_dag.py"
+    m = repo.module(DAGF)
+    fj = repo.anchor(DAGF, "CircuitDAG.from_json")
+    ctx.touch(m, fj)
+    bare = [c for c in calls_in(fj) if isinstance(c.func, ast.Name) and not c.args and not c.keywords
+            and any(isinstance(a, ast.Assign) and norm(a.targets[0]) == c.func.id and isinstance(a.value, ast.Call) and call_attr(a.value) == "name_to_class_map"
+                    for a in ast.walk(fj))]
+    if not bare:
+        ctx.ok_abstract("json.ctor", "from_json does not instantiate operation classes without arguments")
+        return
+    opm = repo.module(OPS)
+    r = _dict_of(repo.anchor(OPS, "name_to_class_map"))
+    n = 0
+    for v in r.values:
+        cname = (dotted(v) or "").split(".")[-1]
+        ci = repo.resolve_class(opm, cname) if cname else None
+        if ci is None:
+            continue
+        init = None
+        for k in repo.mro(ci):
+            if "__init__" in k.methods():
+                init = k.methods()["__init__"]
+                break
+        if init is None:
+            continue
+        n += 1
+        a = init.args
+        pos = a.posonlyargs + a.args
+        required = [x.arg for x in pos[1: len(pos) - len(a.defaults)]] + [x.arg for x, d in zip(a.kwonlyargs, a.kw_defaults) if d is None]
+        if required:
+            ctx.fail("json.ctor", opm, init,
+                     f"from_json builds every operation as `{bare[0].func.id}()`, but {ci.name} cannot be created without arguments (its __init__ "
+                     f"requires {required}): a circuit containing a {ci.name} is written by to_json and cannot be loaded back (TypeError)",
+                     func=f"{ci.name}.__init__", construct=f"{ci.name}: not default-constructible but reachable from name_to_class_map")
+        else:
+            ctx.ok("json.ctor", opm, init, what=f"{ci.name}() is constructible")
+    if n == 0:
+        raise AnalysisError("json.ctor: no class resolved from name_to_class_map")
+
+
 def run(ctx: Ctx) -> None:
+    rule_json_ctor(ctx)
     rule_qasm_classical_register(ctx)
     rule_json_fields(ctx)
     from ..rules import order as _order
@@ -605,6 +651,7 @@ def run(ctx: Ctx) -> None:
 
 
 KNOCKOUTS = [
+    Knockout("classical-op-no-default-ctor", OPS, sub_once('        control=0,\n        control_type="e",\n        target=0,\n        target_type="p",\n        c_register=0,\n        noise=nm.NoNoise(),\n    ):\n', '        control,\n        control_type,\n        target,\n        target_type,\n        c_register=0,\n        noise=nm.NoNoise(),\n    ):\n'), "json.ctor", "not default-constructible", on_fixed_only=True),
     Knockout("measure-into-quantum-index", OQ, sub_nth('-> c{c_reg[0]}[0]; \\n"', '-> c{q_reg[0]}[0]; \\n"', 0), "qasm.creg", "measure target"),
     Knockout("export-node-order", "graphiq/circuit/circuit_dag.py", sub_once("        for op in self.sequence():\n            if isinstance(op, ops.InputOutputOperationBase):", "        for op in [self.dag.nodes[k]['op'] for k in self.dag.nodes]:\n            if isinstance(op, ops.InputOutputOperationBase):"), "order.topological", "node-creation order"),
 
